@@ -45,10 +45,11 @@ def build(tier="quick", seed=0):
         """layout: list of source specs; returns (argv paths, per-source list of intact records)"""
         A = it.call(RD, ["c16/a", [("varint", "n"), ("string", "s"), ("datetime", "ts"), ("datetime", "ts2")]], {})
         B = it.call(RD, ["c16/b", [("varint", "n"), ("string", "t")]], {})
+        A2 = it.call(RD, ["c16/a", [("varint", "n"), ("string", "s"), ("string", "extra")]], {})  # another generation of the type c16/a: same name, other fields
         k = 0
         paths, intact = [], []
         for si, spec in enumerate(layout):
-            path = f"/abs/src{si}.records"
+            path = f"/abs/src{si}.records" + (".gz" if spec.endswith("~") else "")
             paths.append(path)
             if spec == "missing":
                 intact.append([])
@@ -60,11 +61,14 @@ def build(tier="quick", seed=0):
             fp = AbsFile(it, mode="wb")
             w = it.call(st.g["RecordStreamWriter"], [fp], {})
             recs = []
-            for kind in spec.replace("!", ""):
+            for kind in spec.replace("!", "").replace("~", ""):
                 if kind == "+":  # the source is a concatenation of streams (cat a b > c, appended runs): a new writer starts here, with its own header frame
                     w = it.call(st.g["RecordStreamWriter"], [fp], {})
                     continue
-                r = it.call(A, [], {"n": k, "s": SStr(sv[k % 6]), "ts": (None if k == 2 else T1), "ts2": (None if k % 3 == 1 or k == 2 else T2), "_generated": GEN}) if kind == "A" else it.call(B, [], {"n": k, "t": f"t{k}", "_generated": GEN})
+                if kind == "a":
+                    r = it.call(A2, [], {"n": k, "s": SStr(sv[k % 6]), "extra": f"x{k}", "_generated": GEN})
+                else:
+                    r = it.call(A, [], {"n": k, "s": SStr(sv[k % 6]), "ts": (None if k == 2 else T1), "ts2": (None if k % 3 == 1 or k == 2 else T2), "_generated": GEN}) if kind == "A" else it.call(B, [], {"n": k, "t": f"t{k}", "_generated": GEN})
                 k += 1
                 it.call(it.getattr_(w, "write"), [r], {})
                 recs.append(r)
@@ -75,7 +79,13 @@ def build(tier="quick", seed=0):
                 it.assume(z3.And(cut >= 0, cut < last.length)) if not isinstance(last.length, int) else None
                 content = content[:-1] + [MPTrunc(last, cut if not isinstance(last.length, int) else last.length // 2)]
                 recs = recs[:-1]
+            if spec.endswith("~"):  # gzip-compressed, the file ends at a flush point behind the last record: no end-of-stream marker (the writing process died)
+                from pyvc.models.ext import MagicSeg
+
+                content = [MagicSeg("gzip")] + content
             it.vfs[path] = AbsFile(it, content, name=path, mode="rb")
+            if spec.endswith("~"):
+                it.vfs[path].codec_truncated = True
             intact.append(recs)
         return paths, intact
 
@@ -229,10 +239,26 @@ def build(tier="quick", seed=0):
         name = f"C16.pipeline[sources that are concatenated streams, {opts or 'no options'}]"
         pack.add(Obligation(name, lambda tier, name=name, opts=opts: prove_paths(name, th_pipeline_cat(opts), lambda p: (compare(p.value[0], p.value[1]) if p.value[2] else (False, "the output was not closed")), lambda m_, p: {}, allow_raise=("UnicodeEncodeError", "error")),
                             replay=lambda w, opts=opts: {"call": "c16_pipeline", "args": {"opts": opts, "layout": LAYOUT_CAT}}, functions=FU, mode="two source files, each a concatenation of record streams (a header frame in the middle of the file)"))
+    # two generations of one type name (same name, other fields) in the sources: every record is projected from ITS OWN field list, whatever came before
+    LAYOUT_GEN = ["AaA", "aBA"]
+
+    def th_pipeline_gen(opts):
+        def th():
+            fresh()
+            paths, intact = make_sources(LAYOUT_GEN)
+            rc, _, _ = run_main(argv_of(opts, paths, "/abs/out.records"))
+            f = it.vfs.get("/abs/out.records")
+            return decode_output("stream", f) if f is not None else [], reference(intact, opts), f is not None and f.closed
+        return th
+
+    for opts in ({}, {"fields": ["s", "n", "extra"]}, {"exclude": ["ts", "s"]}, {"fields": ["n", "extra", "ts2"], "selector": "r.n >= 1"}, {"exclude": ["extra"], "multi_timestamp": True}):
+        name = f"C16.pipeline[two generations of one type name in the sources, {opts or 'no options'}]"
+        pack.add(Obligation(name, lambda tier, name=name, opts=opts: prove_paths(name, th_pipeline_gen(opts), lambda p: (compare(p.value[0], p.value[1]) if p.value[2] else (False, "the output was not closed")), lambda m_, p: {}, allow_raise=("UnicodeEncodeError", "error")),
+                            replay=lambda w, opts=opts: {"call": "c16_pipeline", "args": {"opts": opts, "layout": LAYOUT_GEN}}, functions=FU, mode="two source files holding records of two same-name types with different fields"))
     pack.case_analyses.append(f"{len(OPTS)} option combinations (skip, count incl. 0, selectors on both engines, -F, -X, metadata overrides, --multi-timestamp and their combination)")
 
     # ------------------------------------------------------------------ isolation of bad sources at every position
-    BAD = ["missing", "garbage", "AB!"]
+    BAD = ["missing", "garbage", "AB!", "AB~"]
     for bad in BAD:
         for pos in range(3):
             layout = ["AB", "BA"]
